@@ -101,12 +101,15 @@ def run_roundtrip(case):
         for i, op in enumerate(case["ops"]):
             cwd = proj.root if op["from"] == "root" else os.path.join(proj.root, "sub", "deeper")
             key, val = op["key"], op["value"]
+            pre = []
+            if (i + len(key)) % 4 == 0:
+                pre = [["-b", "slurm"], ["-v", "warning"], ["--no-color"], ["-b", "local", "-v", "error"]][(i + len(val)) % 4]  # flags are for this invocation only
             if op["op"] == "set":
-                args = ["config", "set", "--", key, val]
+                args = pre + ["config", "set", "--", key, val]
             elif op["op"] == "get":
-                args = ["config", "get", key]
+                args = pre + ["config", "get", key]
             else:
-                args = ["config", "unset", key]
+                args = pre + ["config", "unset", key]
             r = cli.gwf(cwd, args, env, audit=False)
             res.mon("config_commands")
             kinds += op["op"][0]
